@@ -25,18 +25,32 @@ REGISTRATION = {
 
 MODULES = ["OllamaVerif.Properties.C04", "OllamaVerif.Proofs.Store", "OllamaVerif.Model.Store"]
 THEOREMS = [
+    # pinned tree (guards)
     "OllamaVerif.C04.op_preserves_NameInv",
     "OllamaVerif.C04.op_frame",
     "OllamaVerif.C04.history_preserves_Inv",
     "OllamaVerif.C04.prune_exact",
     "OllamaVerif.C04.no_case_twins_partial",
     "OllamaVerif.C04.reachable_no_twins",
+    # repaired variants (no guards)
+    "OllamaVerif.C04.op_preserves_NameInv_fixed",
+    "OllamaVerif.C04.op_frame_fixed",
+    "OllamaVerif.C04.history_preserves_Inv_fixed",
+    "OllamaVerif.C04.prune_exact_fixed",
+    "OllamaVerif.C04.no_new_case_twins_fixed",
+    "OllamaVerif.C04.no_case_twins_fixed",
+    "OllamaVerif.C04.reachable_no_twins_fixed",
+    "OllamaVerif.C04.failed_create_changes_nothing_fixed",
+    # witnesses (pinned defects; the same histories with the repairs in)
     "OllamaVerif.C04.F16a_delete_witness",
     "OllamaVerif.C04.F16a_breaks_NameInv",
     "OllamaVerif.C04.F16a_prune_witness",
     "OllamaVerif.C04.F16b_twin_witness",
     "OllamaVerif.C04.F16b_breaks_NoTwins",
     "OllamaVerif.C04.N1_create_continues_witness",
+    "OllamaVerif.C04.F16a_repaired_witness",
+    "OllamaVerif.C04.F16b_repaired_witness",
+    "OllamaVerif.C04.N1_repaired_witness",
     "OllamaVerif.C04.wEnv_inj",
 ]
 OVERLAY = {"server/zz_verif_c04_test.go": "server/zz_verif_c04_test.go"}
@@ -80,7 +94,8 @@ def run(ctx):
     rc, out, outdir = ctx.go_test("./server/", OVERLAY, "^TestVerifC04$", env=env, timeout=1500)
     if rc != 0:
         ctx.violation("driver-failed", "", out[-1500:], no_input=True)
-    ctx.read_stats(outdir)
+    st = ctx.read_stats(outdir)
+    ctx.coverage["variant_under_test"] = {k: bool(st.get("variant_" + k, 0)) for k in ("fixAlias", "fixResolve", "fixReturn")}
     ctx.l1(outdir)
     ctx.classify(ctx.l2(outdir))
     if ctx.thorough:
